@@ -1426,7 +1426,12 @@ func deleteBehindQueue(m *meta, rng *rand.Rand, round int) {
 	must(err)
 	watch(ctx)
 	defer unwatch()
-	c.Set(7, 1, kioshun.NoExpiration) // resident and visible
+	resident := rng.Intn(2) == 0
+	if resident {
+		c.Set(7, 1, kioshun.NoExpiration) // resident and visible
+	} else {
+		ctx += " (key not yet resident)"
+	}
 	c.VerifHoldDrain(0, true)
 	if e := c.SetAsync(7, 2, kioshun.NoExpiration); e != nil {
 		m.violate("C04", ctx+": SetAsync failed", ctx)
@@ -1443,11 +1448,11 @@ func deleteBehindQueue(m *meta, rng *rand.Rand, round int) {
 	c.Sync()
 	if v, ok := c.Get(7); ok {
 		for _, p := range []string{"C01", "C04"} {
-			m.violate(p, fmt.Sprintf("%s: Set(7,1); SetAsync(7,2) accepted (queued); Delete(7)=%v; Sync: Get(7) returns %d - a deleted key is served", ctx, delRes, v), ctx)
+			m.violate(p, fmt.Sprintf("%s: [Set(7,1);] SetAsync(7,2) accepted (queued); Delete(7)=%v; Sync: Get(7) returns %d - a deleted key is served", ctx, delRes, v), ctx)
 		}
 	}
 	if !delRes {
-		m.violate("C01", ctx+": Delete(7) returned false although the key was resident", ctx)
+		m.violate("C01", ctx+": Delete(7) returned false although the key was resident (or its accepted write was queued ahead of the Delete)", ctx)
 	}
 	c.Close()
 	m.count("delete_behind_queue_rounds")
